@@ -2,7 +2,25 @@
 HOOK_COMMITS = []
 NOT_APPLICABLE = {}
 LEVEL_NOTE = "trusted base: harness/ref (independent reference written from the MAVLink serialization guide, std-lib only), Go toolchain/std-lib, rapid; generated-input search, no proof of absence"
+def _t(technique, level_text, ref):
+    return {"technique": technique, "level_text": level_text, "design_ref": "DESIGN.md section 4 / " + ref, "level_note": LEVEL_NOTE}
+
+
 TEXTS = {
+    "C02": _t("exhaustive enumeration of the CRC step function + property-based fault injection (every single-bit flip) judged by a consumed-span oracle against a reference CRC/CRC_EXTRA",
+              "exploration with a complete sub-space: all 2^24 (register, byte) pairs of the hash agree with a bitwise CRC-16/MCRF4XX; generated dialect frames encoded and checksummed by the reference must be delivered; every single-bit flip, substitutions, swapped checksum bytes and foreign CRC_EXTRA are fed to the real reader and a frame may be delivered only if the bytes consumed are a frame the reference accepts", "C02"),
+    "C05": _t("property-based testing over a stream grammar with chunking and transport-fault injection (metamorphic: splitting independence) + exhaustive small-alphabet streams",
+              "exploration: generated streams (valid, truncated, damaged, junk, glued) are fed whole, byte-wise, in generated chunks and with an injected transport error; no panic, progress per call, exact correspondence between each returned frame and the bytes consumed (reference parser), identical results across splittings, completeness on clean streams; all streams over a 6-symbol marker-rich alphabet up to length 6/7 are enumerated; tlog.Reader totality", "C05"),
+    "C06": _t("property-based testing against an independent SHA-256 signature formula + exhaustive single-bit tampering per generated frame",
+              "exploration: reference-signed frames must be delivered; v1, unsigned, other-key (1 bit), rotated-signature and every single-bit flip of the signed frame must give parse errors and no frame; frames emitted by keyed frame.Writer/streamwriter.Writer (and by a keyed Node, see C09 node part) are parsed by the reference and must verify by the formula with the configured link id and a timestamp inside the call's wall-clock bracket", "C06"),
+    "C07": _t("model-based testing: exhaustive histories over a boundary alphabet + rapid histories against a big-integer model of the replay window",
+              "exploration with a complete sub-space: all 13^4 (13^5 thorough) timestamp histories over a boundary alphabet and tens of thousands of generated histories of correctly signed frames; every accept / too-old decision must equal the model 'refuse iff newest - ts > 1,000,000'; writer timestamps are bracketed by the wall clock and non-decreasing", "C07"),
+    "C08": _t("property-based multi-hop round trip (metamorphic: forwarding invariance) with reference checksum validation + FixFrame edit/forward/accept",
+              "exploration: generated raw frames and dialect messages in canonical and six non-canonical encoding families go through 1..4 reader->writer hops with the dialect present or absent per hop; header fields preserved, bytes identical on dialect-less hops, checksum valid for the payload actually sent and same decoded message on dialect hops; edited frames passed through Node.FixFrame must be accepted by the next hop (with the outgoing key as incoming key when signed)", "C08"),
+    "C09": _t("stateful property-based testing (operation histories with refused writes) parsed by the reference; exhaustive initialization combinations",
+              "exploration: histories of up to 700 writes (decoded, raw in-dialect, refused) on streamwriter.Writer / frame.Writer.WriteMessage; the i-th emitted frame must carry seq i mod 256, the configured ids, version, zero compat flags, reference checksum/payload, signature when keyed; refused writes emit nothing; all 36 initialization combinations on the stream writer and the Node", "C09"),
+    "C20": _t("property-based round trip with exhaustive crash-point (every truncation offset) and write-fault enumeration",
+              "exploration + fault enumeration: generated logs are compared byte for byte with BE64(us) ++ reference frame bytes, read back, then cut at every byte offset (reader must return exactly the complete entries, then an error); unencodable entries must leave the file untouched; an io.Writer failing at a generated call must be reported", "C20"),
     "C01": {
         "technique": "property-based testing (rapid) against an independent reference serializer + complete enumeration of header bytes, lengths and message ids",
         "level_text": "exploration: hundreds of thousands of generated frames over the whole field space are written by the real frame.Writer, compared byte for byte with an independent serializer and read back; finite sub-spaces (each header byte, every payload length, every v1 id, all 2^24 v2 ids in the thorough tier) are enumerated completely; unrepresentable frames must be refused with zero bytes emitted",
